@@ -96,32 +96,34 @@ Definition unpack16 (v : list Z) : outcome (list Z) :=
   | _ => Exc ValueError
   end.
 
-Definition net_line (line : text) : xout (text * list Z) :=
+(* [legacy] = true is the code before fix e02f4b0: name = line[:colon].strip(); the code now
+   strips the padding spaces only: name = line[:colon].strip(" ") *)
+Definition net_line (legacy : bool) (line : text) : xout (text * list Z) :=
   match rfind_byte 58 line with
   | None => XAssert                   (* rfind = -1; assert colon > 0 *)
   | Some colon =>
     if Nat.eqb colon 0 then XAssert   (* assert colon > 0 *)
     else
-      let name := ustrip (firstn colon line) in
+      let name := (if legacy then ustrip else sstrip) (firstn colon line) in
       let fields := usplit (ustrip (skipn (S colon) line)) in
       XV (do vals <- mapM py_int_str fields;
           do t <- unpack16 vals;
           Val (name, t))
   end.
 
-Fixpoint net_fold (d : list (text * list Z)) (ls : list text) : xout (list (text * list Z)) :=
+Fixpoint net_fold (legacy : bool) (d : list (text * list Z)) (ls : list text) : xout (list (text * list Z)) :=
   match ls with
   | [] => XV (Val d)
-  | l :: r => xbind (net_line l) (fun kv => net_fold (dset (fst kv) (snd kv) d) r)
+  | l :: r => xbind (net_line legacy l) (fun kv => net_fold legacy (dset (fst kv) (snd kv) d) r)
   end.
 
 (* _pslinux.net_io_counters *)
-Definition net_raw (content : bytes) : xout (list (text * list Z)) :=
-  net_fold [] (skipn 2 (lines_keep (text_of content))).
+Definition net_raw (legacy : bool) (content : bytes) : xout (list (text * list Z)) :=
+  net_fold legacy [] (skipn 2 (lines_keep (text_of content))).
 
 (* psutil.net_io_counters(pernic, nowrap=False) *)
-Definition net_io_counters (pernic : bool) (content : bytes) : xout front_res :=
-  xbind (net_raw content) (fun raw => XV (front snetio_fields pernic raw)).
+Definition net_io_counters (legacy pernic : bool) (content : bytes) : xout front_res :=
+  xbind (net_raw legacy content) (fun raw => XV (front snetio_fields pernic raw)).
 
 (* ------------------------------------------------ /proc/diskstats, /sys/block *)
 Definition DISK_SECTOR_SIZE : Z := gen_disk_sector_size.
